@@ -407,6 +407,37 @@ func (in *inliner) conv(list []ast.Stmt, lhs []string, s *inlSite) rope {
 				if same {
 					return out
 				}
+				// drop the pairs that are identities, keep the rest
+				if len(lhs) > 1 {
+					var kl []string
+					var kr []ast.Expr
+					for j, r := range t.Results {
+						if lhs[j] != "_" && flatten(in.exprText(r)) == lhs[j] {
+							continue
+						}
+						kl = append(kl, lhs[j])
+						kr = append(kr, r)
+					}
+					if len(kl) < len(lhs) && len(kl) > 0 {
+						allB := true
+						for _, l := range kl {
+							if l != "_" {
+								allB = false
+							}
+						}
+						if !allB {
+							out = append(out, glue(strings.Join(kl, ", ")+" = ", t.Pos(), s.id)...)
+							for j, r := range kr {
+								if j > 0 {
+									out = append(out, glue(", ", t.Pos(), s.id)...)
+								}
+								out = append(out, in.exprText(r)...)
+							}
+							nl()
+							return out
+						}
+					}
+				}
 			}
 			if len(lhs) > 0 && len(t.Results) > 0 && !allBlank {
 				out = append(out, glue(strings.Join(lhs, ", ")+" = ", t.Pos(), s.id)...)
